@@ -25,7 +25,7 @@ type recLimit struct {
 	script    func(n int) int
 }
 
-func (l *recLimit) EstimatedLimit() int                        { return l.est }
+func (l *recLimit) EstimatedLimit() int                       { return l.est }
 func (l *recLimit) NotifyOnChange(c core.LimitChangeListener) { l.listeners = append(l.listeners, c) }
 func (l *recLimit) OnSample(st int64, rtt int64, inFlight int, didDrop bool) {
 	l.got = append(l.got, limgen.Sample{Start: st, RTT: rtt, InFlight: inFlight, Drop: didDrop})
@@ -37,6 +37,12 @@ func (l *recLimit) OnSample(st int64, rtt int64, inFlight int, didDrop bool) {
 		}
 	}
 }
+
+// dbgLogger is a logger with debug enabled that discards its output.
+type dbgLogger struct{}
+
+func (dbgLogger) Debugf(string, ...interface{}) {}
+func (dbgLogger) IsDebugEnabled() bool          { return true }
 
 type lst struct {
 	id       int
@@ -164,7 +170,12 @@ func TestCheck(t *testing.T) {
 			wcfg = fmt.Sprintf("windowSize=%d thr=%d", size, thr)
 		}
 		if wk == "traced" || wk == "traced+windowed" {
-			top = limit.NewTracedLimit(top, limit.NoopLimitLogger{})
+			var lg limit.Logger = limit.NoopLimitLogger{}
+			if r.IntN(2) == 0 {
+				lg = dbgLogger{}
+				wcfg += " logger=debug-enabled"
+			}
+			top = limit.NewTracedLimit(top, lg)
 		}
 		var ls []*lst
 		register := func() {
@@ -191,6 +202,7 @@ func TestCheck(t *testing.T) {
 		now := int64(1e12)
 		base := int64(1) << uint(10+r.IntN(16))
 		changes, notified := 0, 0
+		steadyLeft := 0
 		var ops []rt.J
 		for i := 0; i < nops; i++ {
 			if r.IntN(25) == 0 && len(ls) < 6 {
@@ -219,7 +231,14 @@ func TestCheck(t *testing.T) {
 				desc = rt.J{"op": "SetLimit", "v": v}
 				isSample = false
 			} else {
-				if r.IntN(5) == 0 {
+				if steadyLeft == 0 && r.IntN(30) == 0 {
+					steadyLeft = 20 + r.IntN(40) // steady no-queueing saturated run: the estimate climbs in equal steps
+				}
+				if steadyLeft > 0 {
+					steadyLeft--
+					smp = limgen.Sample{RTT: base, InFlight: before + 1}
+					rt.Count("steady_growth_samples", 1)
+				} else if r.IntN(5) == 0 {
 					smp = limgen.Hostile(r, before, limgen.Baseline(inner), 0.2)
 				} else {
 					smp = limgen.Benign(r, before, base, 0.1)
